@@ -61,6 +61,22 @@ fn ring_canary(d: u8) {
   assert!((l.to_ring(h1) < l.to_ring(h2)) == (k1.0 < k2.0), "CANARY order by ring only must be refuted");
 }
 
+/// CONTRACT of ring::polar_cap_ring_index (the repaired float-sqrt step), for every index that can
+/// occur (h < 2^62): tn(r) <= h < tn(r+1) with tn(k) = 2k(k+1) -- i.e. r is THE ring containing h.
+fn tn(k: u64) -> u64 { (k.wrapping_mul(k.wrapping_add(1))) << 1 }
+fn pcri_contract(lo: u64, hi: u64) {
+  let h: u64 = kani::any();
+  kani::assume(lo <= h && h < hi);
+  let r = crate::ring::polar_cap_ring_index(h);
+  assert!(r < (1u64 << 31), "ring index fits");
+  assert!(tn(r) <= h && h < tn(r + 1), "C10/C11 polar_cap_ring_index(h) is the ring containing h: 2r(r+1) <= h < 2(r+1)(r+2)");
+}
+#[kani::proof] fn pcri_contract_lt_2p10() { pcri_contract(0, 1 << 10) }
+#[kani::proof] fn pcri_contract_2p10_2p20() { pcri_contract(1 << 10, 1 << 20) }
+#[kani::proof] fn pcri_contract_2p20_2p40() { pcri_contract(1 << 20, 1 << 40) }
+#[kani::proof] fn pcri_contract_2p40_2p53() { pcri_contract(1 << 40, 1 << 53) }
+#[kani::proof] fn pcri_contract_2p53_2p62() { pcri_contract(1 << 53, 1 << 62) }
+
 macro_rules! per_depth {
   ($($d:literal => $a:ident, $b:ident, $c:ident);* $(;)?) => { $(
     #[kani::proof] #[kani::unwind(33)] fn $a() { to_ring_order_iso($d) }
